@@ -6,6 +6,7 @@ import Abmarl.Model.BuildersDriver
 import Abmarl.Model.AdaptersDriver
 import Abmarl.Model.TwinDriver
 import Abmarl.Model.MaskDriver
+import Abmarl.Model.ConfigDriver
 /-! Line-protocol driver: one request per line on stdin, one reply per line on stdout. -/
 open Abmarl
 
@@ -24,6 +25,9 @@ def dispatch (line : String) : String :=
       | "twin" => TwinDriver.handleTwin args
       | "ostwin" => TwinDriver.handleOSTwin args
       | "gymabs" => TwinDriver.handleGymABS args
+      | "cfg_attr" => CfgDriver.handleAttr args
+      | "cfg_overlap" => CfgDriver.handleOverlap args
+      | "cfg_box" => CfgDriver.handleBox args
       | "ping" => some (.list (.atom "pong" :: args))
       | _ => none
     match r with
